@@ -1201,10 +1201,11 @@ func (v *Verifier) convert(fr *Frame, st *State, val Val, to types.Type, pos tok
 		}
 		if tsh.Kind == ShSlice { // []byte(string)
 			var wf []*Term
-			r := v.eng.freshVal(tsh, "bytes", &wf)
+			r := v.eng.freshVal(tsh, "bytes", &wf).(SliceVal)
 			for _, w := range wf {
 				st.assume(w)
 			}
+			r.Ref = v.freshRef(st) // the conversion allocates
 			return r
 		}
 	}
